@@ -19,7 +19,8 @@ RULE = ('connect: client.connect(MemoryReactorClock, address) for address lists 
         'listed order and none after the first reachable one. loss: an established connection with 0-4 calls in flight '
         '(some with deadlines), proxies obtained with explicit interface objects / known names / introspection (incl. '
         'two proxies for the same object), disconnect callbacks on the connection and on proxies (some cancelled again), signal subscriptions on live '
-        'proxies (acknowledged by the bus or still unanswered); '
+        'proxies (acknowledged by the bus or still unanswered), calls whose Deferred the caller cancelled, deadlines '
+        'spelled None / 0 / 0.0 / positive; '
         'the transport is lost after EVERY prefix of the generated history; then late replies are delivered and the '
         'clock is run dry; oracle: every outstanding call errbacks exactly once with the loss reason, no delayed call '
         'remains, every registered not-cancelled callback ran exactly once, nothing fires afterwards. reentrant: 1-4 '
@@ -298,6 +299,7 @@ def _run_loss(case, lose_at):
                 c = {'results': [], 'done': False, 'timeout': op[1]}
                 d = rig.conn.callRemote('/o', 'M', interface='a.b', destination='c.d', timeout=op[1])
                 d.addBoth(c['results'].append)
+                c['d'] = d
                 sent = [m for kk, m in rig.sent_messages() if kk == 'msg']
                 c['serial'] = sent[0]['serial']
                 calls.append(c)
@@ -314,6 +316,15 @@ def _run_loss(case, lose_at):
                     c['done'] = True
                     body = ('s', ['failed']) if op[1] % 2 else ('', [])
                     N.deliver(rig.conn, R.encode_message(3, 903, {5: c['serial'], 4: 'org.verif.Error.E'}, *body))
+            elif k == 'cancel_call':
+                # the caller gives up on a pending call itself (Deferred.cancel()): the call is over for the caller, and
+                # whatever the library still keeps for it must go away with the connection like everything else
+                live = [c for c in calls if not c['done'] and c.get('d') is not None]
+                if live:
+                    c = live[op[1] % len(live)]
+                    c['done'] = True
+                    c['cancelled'] = True
+                    c['d'].cancel()
             elif k == 'conn_cb':
                 cb = {'hits': [], 'active': True}
                 cb['fn'] = lambda conn, reason, cb=cb: cb['hits'].append((conn, reason))
@@ -478,6 +489,10 @@ def classify_loss(case):
         labels.append('cancel')
     if any(o[0] == 'proxy_signal' for o in ops) and any(o[0] == 'proxy' for o in ops):
         labels.append('signal_subscription')
+    if any(o[0] == 'cancel_call' for o in ops) and any(o[0] == 'call' for o in ops):
+        labels.append('caller_cancels_call')
+    if any(o[0] == 'call' and o[1] is not None and not o[1] for o in ops):
+        labels.append('timeout_zero')
     return ('call_with_timer' in labels or 'proxy_callback' in labels), sorted(set(labels))
 
 
@@ -488,19 +503,19 @@ def loss_case(draw, tier):
     ncalls = 0
     for _ in range(n):
         k = draw(st.sampled_from(['call', 'call', 'reply', 'error_reply', 'conn_cb', 'conn_cb_cancel', 'proxy', 'proxy', 'proxy_cb',
-                                  'proxy_cb', 'proxy_cb_cancel', 'proxy_signal', 'advance']))
+                                  'proxy_cb', 'proxy_cb_cancel', 'proxy_signal', 'advance', 'cancel_call']))
         if k == 'call':
             if ncalls >= 4:
                 continue
             ncalls += 1
-            ops.append(['call', draw(st.sampled_from([None, 5, 20, 1]))])
+            ops.append(['call', draw(st.sampled_from([None, 5, 20, 1, 0, 0.0]))])
         elif k == 'proxy':
             ops.append(['proxy', draw(st.sampled_from(['explicit', 'explicit-list', 'known', 'introspect', 'introspect',
                                                        'list-introspect'])),
                         draw(st.sampled_from(['/obj', '/obj', '/other']))])
         elif k == 'advance':
             ops.append(['advance', draw(st.sampled_from([1, 4, 6, 30]))])
-        elif k in ('reply', 'error_reply', 'conn_cb_cancel', 'proxy_cb', 'proxy_cb_cancel', 'proxy_signal'):
+        elif k in ('reply', 'error_reply', 'conn_cb_cancel', 'proxy_cb', 'proxy_cb_cancel', 'proxy_signal', 'cancel_call'):
             ops.append([k, draw(st.integers(0, 5))])
         else:
             ops.append([k])
@@ -515,6 +530,9 @@ def enum_loss(tier):
                        ['proxy_cb', 0], ['proxy_cb_cancel', 1]]}
     yield {'ops': [['call', None], ['call', 5], ['call', 20], ['call', 1], ['advance', 4], ['reply', 0], ['conn_cb'],
                    ['conn_cb'], ['conn_cb_cancel', 0]]}
+    # the caller cancels pending calls (with and without deadline) before the connection goes down
+    yield {'ops': [['call', 10], ['call', 10], ['call', None], ['cancel_call', 0], ['advance', 1], ['cancel_call', 1],
+                   ['conn_cb'], ['call', 0]]}
     # a live proxy holding signal subscriptions (acknowledged and not) when the connection goes down
     for mode in ('explicit', 'known', 'introspect'):
         yield {'ops': [['proxy', mode, '/obj'], ['proxy_signal', 1], ['proxy_signal', 2], ['proxy_signal', 0], ['proxy_cb', 0],
@@ -688,7 +706,7 @@ def enum_reentrant(tier):
 @st.composite
 def reentrant_case(draw, tier):
     act = st.sampled_from(ACTS)
-    return {'calls': [{'timeout': draw(st.sampled_from([None, 3, 9])), 'act': draw(act)}
+    return {'calls': [{'timeout': draw(st.sampled_from([None, 3, 9, 0])), 'act': draw(act)}
                       for _ in range(draw(st.integers(1, 4)))],
             'conn_cbs': [draw(act) for _ in range(draw(st.integers(0, 3)))],
             'proxy_cbs': [draw(act) for _ in range(draw(st.integers(0, 3)))]}
